@@ -531,3 +531,75 @@ fn c03_trap_reg() {
     assert!(capture::len() > 0, "REG printed nothing");
     kani::cover!(true);
 }
+
+// ----------------------------------------------------------------- C09 L-sched / C16: the run loop WITH a debugger attached
+// One arbitrary iteration of the real run() with a debugger attached.  Debugger::next_action is replaced by its
+// *contract* (decided by debugger::verif_h::c10_running_* / c10_cmd_*): it returns Proceed only when PC is in
+// user space and mem[PC] is not HALT, StopDebugger or ExitProgram otherwise, and never touches the machine.
+// RunState::execute is the probe of the C03 loop harnesses.  Asserted: after Proceed the loop executes exactly
+// mem[PC] (it does not come back to the debugger without executing: no spinning); after ExitProgram it returns
+// with the machine untouched; after StopDebugger the plain loop takes over from the untouched machine.
+static mut NA_CALLS: u8 = 0;
+static mut NA_ANSWER: u8 = 0;
+fn next_action_contract(_d: &mut Debugger, s: &mut RunState) -> Action {
+    unsafe {
+        NA_CALLS += 1;
+        assert!(NA_CALLS == 1, "the run loop came back to the debugger without executing an instruction or detaching it");
+        match NA_ANSWER {
+            0 => {
+                // contract of next_action: Proceed only from an executable PC
+                kani::assume(s.pc >= s.orig && s.pc < USER_MEMORY_END);
+                let w = s.mem[s.pc as usize];
+                kani::assume(!(w >> 12 == 0xF && w & 0xFF == 0x25));
+                Action::Proceed
+            }
+            1 => Action::StopDebugger,
+            _ => Action::ExitProgram,
+        }
+    }
+}
+
+fn drop_debugger_leak(d: &mut Option<Debugger>) {
+    // `self.debugger = None` drops the debugger (file handles, buffers): not the subject; leak it instead
+    let old = d.take();
+    core::mem::forget(old);
+}
+
+macro_rules! run_with_debugger {
+    ($name:ident, $answer:expr, $exit:path) => {
+        #[kani::proof]
+        #[kani::unwind(3)]
+        #[kani::stub(alloc::fmt::format, stubs::fmt_format)]
+        #[kani::stub(crate::symbol::with_symbol_table, stubs::with_symbol_table)]
+        #[kani::stub(crate::output::Output::print_fmt, crate::output::verif_h::print_fmt_count)]
+        #[kani::stub(crate::debugger::Debugger::next_action, next_action_contract)]
+        #[kani::stub(RunState::execute, execute_probe)]
+        #[kani::stub(std::process::exit, $exit)]
+        fn $name() {
+            let mut s = any_state();
+            let d = crate::debugger::verif_h::any_debugger(&mut s, crate::debugger::verif_h::St::Cont);
+            let probe: u16 = kani::any();
+            let pre = snap(&s);
+            let pre_probe = s.mem[probe as usize];
+            unsafe {
+                NA_ANSWER = $answer;
+                NA_CALLS = 0;
+                LOOP_PRE_PC = s.pc;
+            }
+            let mut env = RunEnvironment { state: s, debugger: Some(d) };
+            env.run();
+            // run() returned: either `exit` (ExitProgram) or detached + normal stop at 0xFFFF
+            assert_unchanged(&env.state, &pre, probe, pre_probe);
+            if $answer == 0 {
+                assert!(false, "run() returned after Proceed without executing the next instruction");
+            }
+            if $answer == 1 {
+                assert!(pre.pc == HALT_ADDRESS, "detached run loop stopped although PC is in user space");
+            }
+            kani::cover!(true, "run() returned");
+            core::mem::forget(env);
+        }
+    };
+}
+run_with_debugger!(c16_run_loop_proceed_executes, 0, crate::verif_h::exits::never);
+run_with_debugger!(c09_run_loop_exit_program, 2, crate::verif_h::exits::never);
